@@ -293,7 +293,11 @@ def modelledReaders : List String :=
    "Conn.readOffset", "Conn.readResponse", "Conn.writeCompressedMessages",
    "Conn.ApiVersions", "Conn.readApiVersions",
    "Conn.waitResponse", "Conn.peekResponseSizeAndID", "Conn.skipResponseSizeAndID", "Conn.do", "Conn.abortRead",
-   "Conn.ReadBatchWith", "Batch.close"]
+   "Conn.ReadBatchWith", "Batch.close",
+   -- the exported entry points of those operations (a renamed unexported helper is accepted through its callers)
+   "Conn.ReadOffset", "Conn.ReadFirstOffset", "Conn.ReadLastOffset", "Conn.ReadOffsets", "Conn.Brokers", "Conn.Controller",
+   "Conn.ReadPartitions", "Conn.readPartitionsResponse", "Conn.CreateTopics", "Conn.DeleteTopics",
+   "Conn.WriteCompressedMessages", "Conn.WriteCompressedMessagesAt", "Conn.ReadBatch"]
 
 def readerAccepted (u : String × List String) : Bool :=
   modelledReaders.contains u.1 || (!u.2.isEmpty && u.2.all modelledReaders.contains)
